@@ -171,11 +171,7 @@ impl Handler {
         Ok(())
     }
 
-    async fn serve(&mut self, store: &Store, options: ReadOptions) {
-        #[cfg(feature = "verif")]
-        crate::verif::sync_point("handler.serve.before_read", Some(self.id));
-        let mut recver = store.read(options).await;
-
+    async fn serve(&mut self, store: &Store, mut recver: tokio::sync::mpsc::Receiver<Frame>) {
         while let Some(frame) = recver.recv().await {
             // Skip registration activity that occurred before this handler was registered
             if (frame.topic == format!("{}.register", self.topic)
@@ -229,13 +225,18 @@ impl Handler {
     pub async fn spawn(&self, store: Store) -> Result<(), Error> {
         let options = self.configure_read_options().await;
 
+        // Subscribe before announcing: once `.registered` is visible, no later frame of the
+        // handler's context can be missed.
+        #[cfg(feature = "verif")]
+        crate::verif::sync_point("handler.serve.before_read", Some(self.id));
+        let recver = store.read(options.clone()).await;
+
         {
             let store = store.clone();
-            let options = options.clone();
             let mut handler = self.clone();
 
             tokio::spawn(async move {
-                handler.serve(&store, options).await;
+                handler.serve(&store, recver).await;
             });
         }
 
